@@ -418,11 +418,11 @@ func (l *Lexer) shiftStartTag() (TokenType, []byte) {
 	if h := ToHash(l.text); h == Textarea || h == Title || h == Style || h == Xmp || h == Iframe || h == Script || h == Plaintext || h == Svg || h == Math || h == Xml {
 		if h == Svg || h == Math || h == Xml {
 			data := l.shiftXML(h)
+			l.inTag = false
 			if l.err != nil {
 				return ErrorToken, nil
 			}
 
-			l.inTag = false
 			if h == Svg {
 				return SVGToken, data
 			} else if h == Math {
